@@ -200,7 +200,7 @@ def genTimes : Gen Val := do
   | 2 => return .time (← genTimeUs)
   | 3 | 4 =>
     let z : Int := (Int.ofNat (← Gen.below 115199)) - 57599
-    let z ← if ← Gen.prob 1 3 then pure ((z / 3600) * 3600) else if ← Gen.prob 1 3 then pure ((z / 900) * 900) else pure z
+    let z ← if ← Gen.prob 1 3 then pure ((Int.tdiv z 3600) * 3600) else if ← Gen.prob 1 3 then pure ((Int.tdiv z 900) * 900) else pure z
     return .timetz (← genTimeUs) z
   | 5 | 6 => return .timestamp false (← genTsV)
   | 7 => return .timestamp true (← genTsV)
@@ -231,7 +231,7 @@ def genIds : Gen Val := do
   | 4 | 5 =>
     let c ← match ← Gen.below 4 with
       | 0 => do
-        let v ← Gen.oneOf [0, 1, 5, 99, 100, 101, 1234, 999999999999999, 4503599627370496, 900719925474099]
+        let v ← Gen.oneOf [0, 1, 5, 99, 100, 101, 1234, 999999999999999, 450359962737049, 900719925474099]
         pure (v : Int)
       | _ => do pure ((Int.ofNat (← Gen.below (2 * 10 ^ 15 - 1))) - (10 ^ 15 - 1 : Nat))
     let c ← if ← Gen.prob 1 3 then pure (-c) else pure c
